@@ -285,3 +285,23 @@ def run(ctx):
 
     # ---- layer 5: VerifyScript shell
     SP.run_verify(ctx, spec)
+
+
+def replay(ctx, rec):
+    """`./check C08 --replay <file>`: re-execute one recorded op line (signature oracle answered on the way)
+    or one oracle witness on the current tree."""
+    res = {"still_fails": False}
+    if rec.get("property_oracle"):
+        w = rec["property_oracle"]
+        ok, detail = ORACLES[w["oracle"]](w["witness"])
+        res.update(oracle=w["oracle"], ok=ok, detail=detail, still_fails=not ok)
+    elif rec.get("op_line"):
+        line = rec["op_line"]
+        io = impl(line)
+        t = line.split(" ")
+        mo = SP.resolve_model(line) if t[0] in ("eval", "execwit", "verify") else (ctx.model(EXE, [line]) or [None])[0]
+        res.update(op_line=line[:2000], impl=io, model=mo, still_fails=mo is None or mo != io)
+    else:
+        res["note"] = "record names obligations/streams only; re-run the check itself"
+        res["still_fails"] = bool(ctx.broken)
+    return res
